@@ -14,13 +14,6 @@ TInit == l = 1 /\ viol = {} /\ stat = Stat0
 Ev == Trace[l]
 V(p, why) == [p |-> p, l |-> l, tr |-> Ev.id, why |-> why, h |-> 0]
 
-Take(sq, n) == SubSeq(sq, 1, IF n > Len(sq) THEN Len(sq) ELSE n)
-G(x) == IF x[1] = "none" THEN <<0, 0>> ELSE IF x[1] = "panic" THEN <<-1, -1>> ELSE <<x[2], x[3]>>
-
-StartPos(S, w) == IF w.start = "min" THEN Norm(S, 1) ELSE IF w.start = "max" THEN Norm(S, Len(S)) ELSE CeilPos(S, w.p)
-RECURSIVE PosSeq(_, _, _, _)
-PosSeq(S, pos, moves, j) == IF j > Len(moves) THEN <<>> ELSE LET np == MovePos(S, pos, moves[j]) IN <<np>> \o PosSeq(S, np, moves, j + 1)
-Expected(S, w) == LET p0 == StartPos(S, w) IN [j \in 1..Len(w.moves)+1 |-> G(At(S, (<<p0>> \o PosSeq(S, p0, w.moves, 1))[j]))]
 
 \* the transcribed machine on the decoded tree
 StartPath(root, ph, w) == IF w.start = "min" THEN Min_(Open(root, ph)) ELSE IF w.start = "max" THEN Max_(Open(root, ph), FALSE)
